@@ -114,7 +114,14 @@ func vfH_C04_pipe() {
 //vf:assume C04-mitm: MITM enabled (the tunnel's first byte is not a TLS handshake, so the proxy serves the tunnelled plaintext HTTP itself - the same connection loop a decrypted tunnel enters after its handshake, which needs real TLS and is outside); basic auth and deny-localhost enabled; an authenticated CONNECT, then one or two inner requests each of which is authenticated / unauthenticated / authenticated for a localhost Host
 
 //vf:harness property=C04 nopanic reach=mitm-inner-forwarded,mitm-inner-407,mitm-inner-403,mitm-connect-refused steps=8000000
-func vfH_C04_mitm() {
+func vfH_C04_mitm() { vfMITMScenario(false) }
+
+//vf:assume C04-mitm-tls: the same with a TLS hello after the 200: crypto/tls is modelled as a transparent layer (the server side handshake consumes one record and succeeds, then bytes pass through), so the requests travel the decrypted-tunnel path of the connection loop (secure session, https scheme); certificates and real records are outside; model-only
+
+//vf:harness property=C04 nopanic modelonly reach=mitm-inner-forwarded,mitm-inner-407,mitm-inner-403,mitm-connect-refused,mitm-tls-session steps=8000000
+func vfH_C04_mitm_tls() { vfMITMScenario(true) }
+
+func vfMITMScenario(tlsHello bool) {
 	const auth = "Proxy-Authorization: Basic dTpwdw==\r\n"
 	cfg := HTTPProxyConfig{}
 	cfg.Name = "fw"
@@ -131,6 +138,9 @@ func vfH_C04_mitm() {
 		wire += auth
 	}
 	wire += "\r\n"
+	if tlsHello && connectAuth {
+		wire += "\x16\x03\x01\x00\x03abc" // one TLS record: where the ClientHello would be
+	}
 	type inner struct{ want int }
 	var inners []inner
 	n := 1 + vfrt.Choice("inner-requests", 2)
@@ -188,6 +198,12 @@ func vfH_C04_mitm() {
 		}
 		if r.Close {
 			break
+		}
+	}
+	if tlsHello && connectAuth {
+		for _, r := range rt.reqs {
+			vfrt.Reach("mitm-tls-session")
+			vfrt.Assert(r.URL.Scheme == "https" && r.TLS != nil, "mitm/requests-of-a-decrypted-tunnel-are-forwarded-as-https")
 		}
 	}
 	vfrt.Assert(rt.calls == wantRT, "mitm/round-trips-only-for-accepted-inner-requests")
